@@ -13,6 +13,7 @@ class PackBranch:
     guard_cls: str  # resolved class tested with isinstance(obj, X)
     if_node: Any
     subtype_exprs: list = field(default_factory=list)  # [(assign stmt, subtype expr, payload expr)]
+    extra_conds: dict = field(default_factory=dict)  # id(payload expr) -> [(test expr, polarity)] for payloads chosen by a conditional expression
 
 
 @dataclass
@@ -81,6 +82,22 @@ def pack_branches(prog, pack_obj: ast.FunctionDef) -> list[PackBranch]:
             break
     if chain is None:
         raise AnalysisError("pack_obj: isinstance dispatch chain on the object not found")
+    # the variable that holds (sub-type, payload): what the function hands to self.pack(...) / returns
+    packed_names = set()
+    for c in calls_in(pack_obj):
+        if isinstance(c.func, ast.Attribute) and c.func.attr == "pack" and c.args and isinstance(c.args[0], ast.Name):
+            packed_names.add(c.args[0].id)
+    if not packed_names:
+        for a in ast.walk(chain):
+            if isinstance(a, ast.Assign) and isinstance(a.value, ast.Tuple) and len(a.value.elts) == 2 and isinstance(a.targets[0], ast.Name):
+                packed_names.add(a.targets[0].id)
+
+    def alternatives(e, conds):
+        """(expr, conds) leaves of nested conditional expressions."""
+        if isinstance(e, ast.IfExp):
+            return alternatives(e.body, conds + [(e.test, True)]) + alternatives(e.orelse, conds + [(e.test, False)])
+        return [(e, conds)]
+
     cur = chain
     while cur is not None:
         if not (isinstance(cur.test, ast.Call) and call_name(cur.test) == "isinstance" and norm(cur.test.args[0]) == obj):
@@ -92,22 +109,25 @@ def pack_branches(prog, pack_obj: ast.FunctionDef) -> list[PackBranch]:
             for s0 in cur.body:
                 for n in ast.walk(s0):
                     if isinstance(n, ast.Assign) and isinstance(n.value, ast.Tuple) and len(n.value.elts) == 2 and \
-                            any(isinstance(tt, ast.Name) for tt in n.targets):
+                            any(isinstance(tt, ast.Name) and tt.id in packed_names for tt in n.targets):
                         payload = n.value.elts[1]
                         defs = []
                         if isinstance(payload, ast.Name):
                             # payload held in a local: one entry per definition inside the branch (each under its own conditions)
                             defs = [a for s1 in cur.body for a in ast.walk(s1) if isinstance(a, ast.Assign) and len(a.targets) == 1 and norm(a.targets[0]) == payload.id]
-                        if defs:
-                            for a in defs:
-                                b.subtype_exprs.append((a, n.value.elts[0], normalize_tuple(prog, module, a.value)))
-                        else:
-                            b.subtype_exprs.append((n, n.value.elts[0], normalize_tuple(prog, module, payload)))
+                        for stmt_, val in ([(a, a.value) for a in defs] or [(n, payload)]):
+                            for leaf, conds in alternatives(val, []):
+                                pl = normalize_tuple(prog, module, leaf)
+                                b.subtype_exprs.append((stmt_, n.value.elts[0], pl))
+                                if conds:
+                                    b.extra_conds[id(pl)] = conds
             out.append(b)
         nxt = cur.orelse
         cur = nxt[0] if len(nxt) == 1 and isinstance(nxt[0], ast.If) else None
         if nxt and cur is None:
-            raise AnalysisError("pack_obj: dispatch chain ends in a non-if else block (default packing?)")
+            # a terminal else that only refuses (raise) is the "unpackable type" arm, not a default packing
+            if not all(isinstance(x, ast.Raise) for x in nxt):
+                raise AnalysisError("pack_obj: dispatch chain ends in a non-if else block (default packing?)")
     return out
 
 
